@@ -646,6 +646,8 @@ func runC01(h *H) {
 	}
 	// struct-field resolution against the Lean model / specification (c01fields.go)
 	genFields(h)
+	// codec construction: marshaler detection, addressability, cache histories (c01codec.go)
+	genCodecChoice(h)
 	genFieldsDec(h)
 	// type-directed differential against encoding/json (supervised: a crash is an observable)
 	N := 2500
@@ -663,6 +665,11 @@ func runC01(h *H) {
 	}
 	// float layer: encodeFloat against the Lean model / stdlib rule, destination prefixes of every shape (c01float.go)
 	genEncFloat(h)
+	// map key layer: member order and key texts per key kind (c01mapkeys.go); omitempty decision table (c01omit.go)
+	genMapKeyOrder(h)
+	genMapKeyDec(h)
+	genOmitEmpty(h)
+	genInlined(h)
 }
 
 // rawDoc: a VALID JSON text with insignificant white space, strings that end in escaped backslashes or quotes, HTML
